@@ -723,6 +723,9 @@ func (s *symCtx) deref(p ssa.Value, d int) string {
 			delete(s.seen, x)
 			return r
 		}
+		if lit := s.litFields(x, d); lit != "" {
+			return lit
+		}
 		return s.allocName(x, d)
 	case *ssa.FieldAddr:
 		return s.deref(x.X, d+1) + "." + fieldName(x.X.Type(), x.Field)
@@ -978,3 +981,33 @@ func constantInt(c *types.Const) (int64, bool) {
 
 // factsAtSelf: no extra facts (placeholder for symmetry: facts that hold on entry of b are factsAt(b)).
 func factsAtSelf(b *ssa.BasicBlock) []Atom { return nil }
+
+// litFields renders a composite literal built field by field into a fresh alloc: T{F: v, ...}.
+func (s *symCtx) litFields(a *ssa.Alloc, d int) string {
+	if a.Comment != "complit" || s.seen[a] {
+		return ""
+	}
+	var parts []string
+	for _, r := range *a.Referrers() {
+		switch x := r.(type) {
+		case *ssa.Store:
+			if x.Addr == ssa.Value(a) {
+				return ""
+			}
+		case *ssa.FieldAddr:
+			for _, rr := range *x.Referrers() {
+				if st, ok := rr.(*ssa.Store); ok && st.Addr == ssa.Value(x) {
+					s.seen[a] = true
+					parts = append(parts, fieldName(x.X.Type(), x.Field)+": "+s.expr(st.Val, d+2))
+					delete(s.seen, a)
+				}
+			}
+		}
+	}
+	if len(parts) == 0 {
+		return ""
+	}
+	sort.Strings(parts)
+	t := a.Type().(*types.Pointer).Elem()
+	return types.TypeString(t, shortQual) + "{" + strings.Join(parts, ", ") + "}"
+}
